@@ -40,7 +40,8 @@ def run(report, tier):
                       "file order, with the written tree / spin / lineshape tags and coupling = magnitude * exp(i phase) (real + i imaginary "
                       "with FastCoherentSum::UseCartesian 1); the option absent / 0 / 1 is read without error",
                 bounds=f"{H.N_READ} generated option texts: {len(H.MOTHER_SETS)} sets of mother lines x 0..3 / 0..2 alternative sub-lines for two "
-                       "resonance names x option absent/0/1 x plain or commented/blank-line layout x 3 parameter/constant tables",
+                       "resonance names x option absent/0/1 x plain or commented/blank-line layout x 3 parameter/constant tables x (first read of the process | after a "
+                       "read of a text in which the same resonances have no lines of their own, class-level sets not reset)",
                 functions=FUNCS, timeout=1200 if tier == "thorough" else 600,
                 sample={"line": "D0{K(1)(1270)bar-,pi+} 0 -0.3 0.0 2 0.7 0.0", "sub-lines": 3}),
     ]
